@@ -105,6 +105,8 @@ DOCS = {
     'pyobj': '--- !!python/object:checks.c11.Obj {v: 1}\n',
     'long': '---\n' + ''.join('- item %d: [%d, %s]\n' % (i, i * i, 'abc' * (i % 7)) for i in range(60)),
     'keys': '---\n? [complex, key]\n: value\n? |\n  block key\n: v2\n',
+    # three refill blocks of multi-byte characters at shifting offsets: every 4096-byte boundary splits a sequence
+    'bigmb': '---\n' + ''.join('- %s: "%s"\n' % ('k' * (i % 3 + 1), ('\u00e9\u20ac' * 11 + '\U0001F600') * 2) for i in range(95)),
     # invalid, failing before their own end
     'e_scan_mapval': '---\na: b: c\n',
     'e_scan_brace': '--- [a, b}\n',
@@ -455,7 +457,11 @@ def gen_load_op(r, reent_ok=True):
     multi = api in ('load_all', 'compose_all', 'parse', 'scan') and r.random() < 0.5
     docs = [r.choice(DOC_IDS) for _ in range(r.randint(2, 4) if multi else 1)]
     docs = [d for d in docs if d != 'reent'] or ['plain']
-    op = {'api': api, 'cls': cls, 'docs': docs, 'terminate': multi, 'form': r.choice(['str', 'str', 'bytes', 'bstream', 'tstream'])}
+    if r.random() < 0.06:
+        # several blocks of multi-byte text followed by another document: 'load' stops before EOF
+        docs = ['bigmb'] + docs
+        pass
+    op = {'api': api, 'cls': cls, 'docs': docs, 'terminate': multi or len(docs) > 1, 'form': r.choice(['str', 'str', 'bytes', 'bstream', 'tstream'])}
     if op['form'].endswith('stream'):
         op['chunk'] = r.choice([1, 3, 7, 64, None])
     if reent_ok and api in ('load', 'load_all') and r.random() < 0.15 and not cls.endswith('BaseLoader'):
@@ -505,6 +511,8 @@ def gen_op(r, reent_ok=True):
 def gen_gen_op(r):
     api = r.choice(GEN_APIS)
     docs = [r.choice([d for d in DOC_IDS if d != 'reent']) for _ in range(r.randint(2, 5))]
+    if r.random() < 0.15:
+        docs.insert(r.randrange(2), 'bigmb')
     return {'api': api, 'cls': r.choice(LOADERS), 'docs': docs, 'terminate': True, 'form': r.choice(['bstream', 'tstream']),
             'chunk': r.choice([1, 2, 5, 16, 64, None])}
 
